@@ -176,7 +176,165 @@ func (g *Gen) runOnce() {
 	}
 }
 
-func (g *Gen) frameCheck(fr *Frame, st *State, p *Ptr) {}
+// frameCheck: a store to a pre-existing heap location must be covered by the function's
+// modifies clause (or target an object allocated by this activation). One obligation per store.
+func (g *Gen) frameCheck(fr *Frame, st *State, p *Ptr) {
+	if g.specMode || g.con == nil || g.con.IsLemma || g.topFrame == nil {
+		return
+	}
+	switch p.Kind {
+	case PHeapField:
+		fname := p.StructT.Underlying().(*types.Struct).Field(p.Field).Name()
+		g.frameObligation(st, "field "+fname, p.Ref, func(e *Env, m CExpr) (string, bool) {
+			f, ok := m.(*CField)
+			if !ok || f.Name != fname {
+				return "", false
+			}
+			base, ok := e.tryEval(f.X)
+			if !ok || base.Ty == nil {
+				return "", false
+			}
+			if pt, ok := base.Ty.Underlying().(*types.Pointer); ok && types.Identical(pt.Elem().Underlying(), p.StructT.Underlying()) {
+				return base.T, true
+			}
+			return "", false
+		})
+	case PHeapStruct:
+		g.frameObligation(st, "struct", p.Ref, func(e *Env, m CExpr) (string, bool) { return "", false })
+	case PElem, PHeapArr:
+		g.frameElems(st, p.Ref, p.ElemT)
+	case PHeapScalar:
+		g.frameObligation(st, "pointee", p.Ref, func(e *Env, m CExpr) (string, bool) {
+			c, ok := m.(*CCall)
+			if !ok || c.Fun != "deref" || len(c.Args) != 1 {
+				return "", false
+			}
+			v, ok := e.tryEval(c.Args[0])
+			return v.T, ok
+		})
+	}
+}
+
+func (g *Gen) frameElems(st *State, arr string, elemT types.Type) {
+	g.frameObligation(st, "elements", arr, func(e *Env, m CExpr) (string, bool) {
+		c, ok := m.(*CCall)
+		if !ok || c.Fun != "elems" || len(c.Args) != 1 {
+			return "", false
+		}
+		v, ok := e.tryEval(c.Args[0])
+		if !ok || v.Ty == nil {
+			return "", false
+		}
+		if _, isSl := v.Ty.Underlying().(*types.Slice); !isSl {
+			return "", false
+		}
+		return sx("s_arr", v.T), true
+	})
+}
+
+func (g *Gen) frameObligation(st *State, what, ref string, match func(e *Env, m CExpr) (string, bool)) {
+	fr := g.topFrame
+	if fr.entry == nil {
+		return
+	}
+	alts := []string{sx(">", ref, "top0")}
+	for _, m := range g.con.Modifies {
+		if m == "heap" {
+			return
+		}
+		me, err := parseCExpr(m)
+		if err != nil {
+			continue
+		}
+		env := g.envFor(fr, fr.entry)
+		env.preferParams = true
+		if t, ok := match(env, me); ok {
+			alts = append(alts, eq(ref, t))
+		}
+	}
+	goal := or(alts...)
+	if goal == "true" {
+		return
+	}
+	g.callSeq["frame:"+what]++
+	g.oblige(st, "frame", fmt.Sprintf("%s/frame/store to %s#%d is covered by modifies", g.fnName(), what, g.callSeq["frame:"+what]), goal, nil, nil)
+}
+
+// frameCallee: the callee's modifies entries must be covered by the caller's.
+func (g *Gen) frameCallee(st *State, env *Env, con *FuncContract, key string) {
+	if g.specMode || g.con == nil || g.topFrame == nil || g.topFrame.entry == nil {
+		return
+	}
+	for _, m := range con.Modifies {
+		if m == "heap" {
+			ok := false
+			for _, mm := range g.con.Modifies {
+				if mm == "heap" {
+					ok = true
+				}
+			}
+			if !ok {
+				g.rejectFrame(fmt.Sprintf("callee %s modifies heap but %s does not declare it", shortKey(key), shortKey(g.fnName())))
+			}
+			continue
+		}
+		me, err := parseCExpr(m)
+		if err != nil {
+			continue
+		}
+		switch n := me.(type) {
+		case *CIdent:
+			if _, isGhost := g.ghostT[n.Name]; isGhost {
+				ok := false
+				for _, mm := range g.con.Modifies {
+					if mm == n.Name || mm == "heap" {
+						ok = true
+					}
+				}
+				if !ok {
+					g.rejectFrame(fmt.Sprintf("callee %s modifies ghost %s but %s does not declare it in its modifies clause", shortKey(key), n.Name, shortKey(g.fnName())))
+				}
+			}
+		case *CField:
+			base, ok := env.tryEval(n.X)
+			if !ok || base.Ty == nil {
+				continue
+			}
+			pt, ok := base.Ty.Underlying().(*types.Pointer)
+			if !ok {
+				continue
+			}
+			fname := n.Name
+			g.frameObligation(st, "field "+fname+" (by callee "+shortKey(key)+")", base.T, func(e *Env, m2 CExpr) (string, bool) {
+				f, ok := m2.(*CField)
+				if !ok || f.Name != fname {
+					return "", false
+				}
+				b2, ok := e.tryEval(f.X)
+				if !ok || b2.Ty == nil {
+					return "", false
+				}
+				if p2, ok := b2.Ty.Underlying().(*types.Pointer); ok && types.Identical(p2.Elem().Underlying(), pt.Elem().Underlying()) {
+					return b2.T, true
+				}
+				return "", false
+			})
+		case *CCall:
+			if n.Fun == "elems" && len(n.Args) == 1 {
+				v, ok := env.tryEval(n.Args[0])
+				if ok && v.Ty != nil {
+					if sl, isSl := v.Ty.Underlying().(*types.Slice); isSl {
+						g.frameElems(st, sx("s_arr", v.T), sl.Elem())
+					}
+				}
+			}
+		}
+	}
+}
+
+func (g *Gen) rejectFrame(msg string) {
+	panic(reject("frame: %s", msg))
+}
 
 func (g *Gen) anchorAsserts(fr *Frame, st *State, local string) {
 	if fr.con == nil || g.specMode {
@@ -251,8 +409,12 @@ func discharge(results []*FuncResult, opts solveOpts) {
 				for _, in := range j.g.inputs {
 					vals = append(vals, in.Term)
 				}
-				res := solve(q, nil, opts.timeout, "")
-				if res.Status != "unsat" && res.Status != "sat" {
+				to := opts.timeout
+				if j.o.Expect == "sat" && to > 4 {
+					to = 4
+				}
+				res := solve(q, nil, to, "")
+				if res.Status != "unsat" && res.Status != "sat" && j.o.Expect != "sat" {
 					// one escalation
 					res2 := solve(q, nil, opts.timeout*4, "")
 					res2.Time += res.Time
@@ -300,6 +462,11 @@ func modelTerms(g *Gen) []string {
 }
 
 func (o *Obligation) ok() bool {
+	if o.Expect == "sat" {
+		// vacuity cover: only a refutation (unsat) shows that the assumptions are contradictory;
+		// with quantified axioms the solvers often answer unknown instead of sat
+		return o.Result.Status != "unsat"
+	}
 	return o.Result.Status == o.Expect
 }
 
